@@ -140,7 +140,12 @@ def c16_simple(tier):
                     for o in (0, 1):
                         obs.append(step("C16", src, tag, n, n, lt, op, o, DUP=dup))
                 for o in observers[2:]:
-                    ob = step("C16", src, tag, n, n, lt, 14, o, DUP=dup)
+                    if tag == "und" and o == 5:
+                        if tier == "quick":
+                            continue          # duplicates are covered step-wise by C08 (begin / ++ with DUP=2)
+                        ob = step("C16", src, tag, n, n, lt, 14, o, DUP=dup, timeout=3400, mem_gb=16)
+                    else:
+                        ob = step("C16", src, tag, n, n, lt, 14, o, DUP=dup)
                     if tag == "und":
                         ob["id"] = ob["id"].replace("/" + OBS_NAMES.get(o, "?"), "/" + UND_OBS[o])
                     obs.append(ob)
@@ -634,7 +639,7 @@ PROPS["C12"] = {"gen": c12,
 def c19(tier):
     obs = []
     for und in (0, 1):
-        obs.append(dij_ob("C19", und, 2, 3))
+        obs.append(dij_ob("C19", und, 2, 3, optional_reach=[""]))
         if tier == "thorough":
             for s in range(3):
                 obs.append(dij_ob("C19", und, 3, 4, fixs=s, timeout=3400, mem_gb=16))
@@ -820,6 +825,69 @@ PROPS["C15"] = {"gen": lambda tier: c15_bin(tier) + c15_txt(tier),
     "outside": "longer files; indices too large to allocate (the model bounds vector sizes by its capacity - an assumption)",
     "explanation": "The buffer is a valid file cut at a symbolic offset; the loader must throw or return exactly the edges of the complete records. A short read leaves its destination partly unwritten, and unwritten / stale locals are nondeterministic in the encoding, so an edge pieced together from a partial record is a reachable assertion failure.",
     "assumptions": ["stream model: a short read copies what is there and sets failbit; once failed nothing is extracted"]}
+
+
+MON_ENTRIES = {0: "size-edgeNumber-hasEdge", 1: "getOutNeighbours", 2: "vertex-iteration", 3: "edges", 4: "copy", 5: "equality", 6: "getAdjacencyMatrix", 7: "getEdgeLabel-hasEdgeLabel", 8: "reverse-or-getDirectedGraph",
+               9: "degrees", 10: "getSubgraph", 11: "getSubgraphWithRemap", 12: "findVertexPredecessors", 13: "findAllVertexPredecessors", 14: "findGeodesics", 15: "findAllGeodesics", 16: "writeBinaryEdgeList",
+               17: "writeTextEdgeList", 18: "undirected-from-directed", 19: "operator<<", 20: "multiplicity-or-weight-observers", 21: "findGeodesicsDijkstra", 99: "CONTROL-mutator-after-freeze"}
+
+
+def mon_ob(kind, entry, n, **kw):
+    nm = max(n, 1)
+    defs = caps(n, n)
+    defs.update({"KIND": kind, "ENTRY": entry})
+    und = kind in (1, 3, 5)
+    b = graph_bounds(defs, und=und)
+    if entry in (12, 13, 14, 15, 21):
+        front = nm if entry == 14 else (max(nm - 1, 1) if entry == 15 else 0)
+        defs.update({"VERIF_LIST_FRONT": front, "VERIF_LIST_CAP": front + nm + 1, "VERIF_QUEUE_CAP": nm * nm + 2, "VERIF_HEAP_CAP": nm * nm + 2, "VERIF_VEC_CAP": max(nm, nm * nm + 2) if entry == 21 else nm})
+        b = ("verif_=%d,findVertexPredecessors=%d,findAllVertexPredecessors&#0=%d,findAllVertexPredecessors&#1=%d,findMultiplePathsToVertexFromPredecessors=%d,findPathToVertexFromPredecessors=%d,findGeodesicsDijkstra&#0=%d,findGeodesicsDijkstra&#1=%d,unordered_map=%d,default=%d"
+             % (nm * nm + 4, nm + 2, nm + 3, nm + 2, nm * nm + 4, nm + 2, nm * nm + 4, nm + 2, nm * nm + 2, max(front + nm + 3, nm + 3, defs["VERIF_VEC_CAP"] + 2)))
+    if entry in (16, 17):
+        defs.update({"VERIF_FILE_CAP": 24 + nm * nm * 12 + 1, "VERIF_STR_CAP": 3})
+        b = "put_=%d,operator<<=%d,write=10," % (defs["VERIF_FILE_CAP"] + 2, defs["VERIF_FILE_CAP"] + 2) + b
+    ob = {"id": "C18/%s/n%d/%s" % (KIND_NAMES[kind], n, MON_ENTRIES[entry]), "src": "monitor.cpp", "defs": defs, "bounds": b, "monitor": True, "optional_reach": [""], "no_validate": True}
+    if entry == 99:
+        ob["expect_fail"] = ["MON: const operation writes shared state"]
+    ob.update(kw)
+    return ob
+
+
+def c18(tier):
+    obs = []
+    heavy_und = (3, 6, 8, 16, 17, 19, 10, 11, 13, 15)
+    for kind in range(6):
+        und = kind in (1, 3, 5)
+        entries = [0, 1, 2, 3, 4, 5, 6, 9, 19, 99]
+        if kind in (0, 1):
+            entries += [7, 8, 10, 11, 12, 13, 14, 15, 16, 17]
+        if kind == 0:
+            entries += [18]
+        if kind >= 2:
+            entries += [20]
+        if kind >= 4:
+            entries += [21]
+        for e in sorted(entries):
+            n = 3
+            if tier == "quick" and (e in (10, 11, 13, 15, 21) or (und and e in heavy_und)):
+                n = 2
+            if tier == "quick" and (e == 15 or (und and e == 17)):
+                n = 1
+            kw = {"mem_gb": 8}
+            if tier == "thorough":
+                kw.update(timeout=3400, mem_gb=14)
+                if und and e in (3, 8, 16, 17, 19) or e in (15,):
+                    n = 2
+            obs.append(mon_ob(kind, e, n, **kw))
+    return obs
+
+
+PROPS["C18"] = {"gen": c18,
+    "technique": "bounded symbolic execution with a write-set monitor: every store/memcpy/memset of the const entry point is asserted not to land in the shared graph or in mutable namespace-scope state (clang IR -> C -> CBMC/SAT)",
+    "bounds": {"quick": "arbitrary valid shared graph on 3 vertices (2 for the subgraph / all-predecessor / Dijkstra entry points and the undirected traversals), all eight classes, ~20 const entry points each with arbitrary arguments", "thorough": "3 vertices for all but the undirected whole-graph traversals"},
+    "outside": "the interleavings themselves are not explored: the claim is the reduction 'no shared write and no read of mutable state other than the graph => race-free and deterministic', plus the trusted fact that const member functions of the real standard containers are race-free ([res.on.data.races])",
+    "explanation": "Write-set monitor: after __VERIFIER_freeze(&g) every emitted store, memcpy and memset is preceded by an assertion that it does not land in g or in mutable namespace-scope state, every load of such state likewise; function-local static initialisation (__cxa_guard) is flagged. The control query (a mutator after the freeze) must be flagged in every run.",
+    "assumptions": ["const member functions of the real standard containers do not write (the model's do not)"]}
 
 
 def obligations(prop, tier):
